@@ -106,48 +106,79 @@ func c52(c *Ctx) {
 	c.Has("(*http/httpproxy.Config).ProxyFunc", Calls(ini))
 
 	// ---- useProxy
+	// The address is tested for emptiness first (an empty address uses the proxy); every rejection below holds
+	// for non-empty addresses only. `len(addr) != 0` and `addr != ""` are the same fact: either spelling is accepted.
 	retTrue := RetConst(0, "true")
-	c.RejectInLoop(up, retTrue, "SplitHostPort($0)#2 != nil", "len($0) != 0")
-	c.RejectInLoop(up, retTrue, `SplitHostPort($0)#0 == "localhost"`, "SplitHostPort($0)#2 == nil", "len($0) != 0")
-	c.RejectInLoop(up, retTrue, "IsLoopback(AsSlice(ParseAddr(SplitHostPort($0)#0)#0))", "ParseAddr(SplitHostPort($0)#0)#1 == nil", `SplitHostPort($0)#0 != "localhost"`, "SplitHostPort($0)#2 == nil", "len($0) != 0")
-	c.Count(up, Calls(".match"), 2, 2)
-	c.NeverAfter(up, m1BoolBranch(".match", 0, true), retTrue, true)
-	c.Count(up, m1BoolBranch(".match", 0, true), 2, 2)
-	c.Count(up, retTrue, 2, 2)
+	c.M5AnySpelling(M5NonEmpty("$0"), func(ne string) {
+		c.RejectInLoop(up, retTrue, "SplitHostPort($0)#2 != nil", ne)
+	})
+	c.M5AnySpelling(M5NonEmpty("$0"), func(ne string) {
+		c.RejectInLoop(up, retTrue, `SplitHostPort($0)#0 == "localhost"`, "SplitHostPort($0)#2 == nil", ne)
+	})
+	c.M5AnySpelling(M5NonEmpty("$0"), func(ne string) {
+		c.RejectInLoop(up, retTrue, "IsLoopback(AsSlice(ParseAddr(SplitHostPort($0)#0)#0))", "ParseAddr(SplitHostPort($0)#0)#1 == nil", `SplitHostPort($0)#0 != "localhost"`, "SplitHostPort($0)#2 == nil", ne)
+	})
+	// The matcher lists are consulted by exactly two .match call sites, either in useProxy itself or in a new
+	// unexported predicate helper called from it ("does any matcher of this list match": its result is true
+	// exactly when a .match call was true, see M5PredicateHelper). A positive match makes useProxy answer false.
 	if fn := c.MustFn(up); fn != nil {
-		var ipCall, domCall *ssa.Call
-		for _, in := range Calls(".match").F(c.P, fn) {
-			cl := in.(*ssa.Call)
+		sites := c.P.M5SitesVia(fn, Calls(".match"))
+		c.Check(len(sites) == 2, "site-count", up+": [call .match] count in [2,2]", fn.Pos(), fmt.Sprintf("found %d", len(sites)), fmt.Sprintf("found %d (in useProxy and the new helpers it calls)", len(sites)))
+		var ipSite, domSite *M5Site
+		for i := range sites {
+			st := &sites[i]
+			recv := st.LiftText(Term(st.Call.Call.Value))
 			switch {
-			case strings.HasPrefix(Term(cl.Call.Value), "$r.ipMatchers["):
-				ipCall = cl
-			case strings.HasPrefix(Term(cl.Call.Value), "$r.domainMatchers["):
-				domCall = cl
+			case strings.HasPrefix(recv, "$r.ipMatchers["):
+				ipSite = st
+			case strings.HasPrefix(recv, "$r.domainMatchers["):
+				domSite = st
+			}
+			why := c.P.M5SiteWhenTrue(*st, false)
+			c.Check(why == "", "never-after", fmt.Sprintf("%s: after a positive .match (%s) never a result other than false", up, recv), st.Anchor().Pos(), "", why)
+		}
+		// the results other than false (a result variable merged before a common return counts per incoming
+		// path): the empty address, and "no matcher matched" - the constant true, or the negated result of the
+		// domain-matcher predicate helper
+		nTrue, nPred, nOther := 0, 0, 0
+		for _, rc := range M5BoolRetCases(fn) {
+			switch {
+			case rc.Const == "false":
+			case rc.Const == "true":
+				nTrue++
+			case rc.Neg && domSite != nil && domSite.Outer != nil && rc.Val == ssa.Value(domSite.Outer):
+				nPred++
+			default:
+				nOther++
 			}
 		}
-		c.Check(ipCall != nil && domCall != nil, "matcher-lists", up+": one match call per matcher list", fn.Pos(), "", "the .match calls are not over cfg.ipMatchers[...] and cfg.domainMatchers[...]")
-		if ipCall != nil && domCall != nil {
-			ipT := Term(BaselineArgs(&ipCall.Call)[2])
-			c.Guard(up, Calls(".match").Where("over ipMatchers", func(in ssa.Instruction) bool { return in == ssa.Instruction(ipCall) }), ipT+" != nil")
+		c.Check(nTrue+nPred == 2 && nTrue >= 1 && nOther == 0, "site-count", up+": [return #0=true] count in [2,2]", fn.Pos(), "", fmt.Sprintf("found %d constant true result(s), %d negated domain-matcher predicate(s), %d other result(s) that are not the constant false", nTrue, nPred, nOther))
+		c.Check(ipSite != nil && domSite != nil, "matcher-lists", up+": one match call per matcher list", fn.Pos(), "", "the .match calls are not over cfg.ipMatchers[...] and cfg.domainMatchers[...]")
+		if ipSite != nil && domSite != nil {
+			ipArg, _ := ipSite.Lift(BaselineArgs(&ipSite.Call.Call)[2])
+			ipT := Term(ipArg)
+			c.Guard(up, M5Only("call .match where over ipMatchers", ipSite.Anchor()), ipT+" != nil")
 			noIPFact := true
-			for _, f := range FactStringsAt(domCall) {
+			for _, f := range FactStringsAt(domSite.Anchor()) {
 				if strings.Contains(f, "AsSlice(") || strings.Contains(f, "ParseAddr(") {
 					noIPFact = false
 				}
 			}
-			c.Check(noIPFact, "matcher-lists", up+": domain matchers are consulted for names and IP literals alike", domCall.Pos(), "", "the domain matcher loop is under a test of the parsed IP")
-			for _, cl := range []*ssa.Call{ipCall, domCall} {
+			c.Check(noIPFact, "matcher-lists", up+": domain matchers are consulted for names and IP literals alike", domSite.Anchor().Pos(), "", "the domain matcher loop is under a test of the parsed IP")
+			for _, st := range []*M5Site{ipSite, domSite} {
 				which := "ipMatchers"
-				if cl == domCall {
+				if st == domSite {
 					which = "domainMatchers"
 				}
-				a := BaselineArgs(&cl.Call)
-				c.Check(Term(a[0]) == "ToLower(TrimSpace(SplitHostPort($0)#0))" && Term(a[1]) == "SplitHostPort($0)#1", "matcher-args", up+": "+which+" receive (lower-cased trimmed host, port)", cl.Pos(), "", "arguments are ("+Term(a[0])+", "+Term(a[1])+")")
+				a := BaselineArgs(&st.Call.Call)
+				a0, a1 := st.LiftText(Term(a[0])), st.LiftText(Term(a[1]))
+				c.Check(a0 == "ToLower(TrimSpace(SplitHostPort($0)#0))" && a1 == "SplitHostPort($0)#1", "matcher-args", up+": "+which+" receive (lower-cased trimmed host, port)", st.Call.Pos(), "", "arguments are ("+a0+", "+a1+")")
 				leaves := map[string]bool{}
-				for _, l := range PhiLeaves(a[2]) {
+				a2, lifted := st.Lift(a[2])
+				for _, l := range PhiLeaves(a2) {
 					leaves[Term(l)] = true
 				}
-				c.Check(leaves["AsSlice(ParseAddr(SplitHostPort($0)#0)#0)"] && leaves["nil"] && len(leaves) == 2, "matcher-args", up+": "+which+" receive the parsed IP of the host or nil", cl.Pos(), "", fmt.Sprintf("ip argument leaves %v", leaves))
+				c.Check(lifted && leaves["AsSlice(ParseAddr(SplitHostPort($0)#0)#0)"] && leaves["nil"] && len(leaves) == 2, "matcher-args", up+": "+which+" receive the parsed IP of the host or nil", st.Call.Pos(), "", fmt.Sprintf("ip argument leaves %v", leaves))
 			}
 		}
 	}
